@@ -217,7 +217,17 @@ impl Property for C17 {
                     match res {
                         Ok(f) => return Err(viol!("collinear sources are rejected", "Frame::frame returned Ok({:?}) for sources {:?}", f, line)),
                         Err(e) => match e.downcast_ref::<ColinearPoints>() {
-                            Some(cp) => ensure!(cp.source, "rejected with the corresponding error (ColinearPoints, source)", "flag source={}", cp.source),
+                            Some(cp) => {
+                                // the images of collinear points are collinear as well (up to rounding): when the library finds the target triple
+                                // collinear too, either flag names a true reason and is "the corresponding error"
+                                let t12 = sub(&q[1], &q[0]);
+                                let t13 = sub(&q[2], &q[0]);
+                                let target_collinear_too = norm(&cross(&t12, &t13)) <= 1e-9 * (1.0 + norm(&t12) * norm(&t13));
+                                ensure!(cp.source || target_collinear_too, "rejected with the corresponding error (ColinearPoints, source)", "flag source={}", cp.source);
+                                if !cp.source {
+                                    ctx.class("collinear:source and target both collinear, the target was named");
+                                }
+                            }
                             None => return Err(viol!("rejected with the corresponding error (ColinearPoints, source)", "got: {}", e)),
                         },
                     }
